@@ -85,7 +85,7 @@ CHECKS = {
     technique="TLC model checking + TLC-generated histories replayed into the real code, judged by JacJudge.tla", design="6/C16"),
  "C18": dict(level="model_checking",
     text="Facade.tla model-checks the facade's own logic (sort, one integrate(t) per requested time, repeated times are no-ops, one column each) on every t_eval of length <= 4; a lattice of real solve_ivp calls (method by name/class, t_eval variants, state shapes (), (1,), (2,), (2,2), args with extra defaulted parameters, max_step, tolerances, dense, events) is compared with the same problem driven through OdeSystem; FacadeJudge.tla decides shapes, pairing, requested times, args order, max_step, result fields, bit-for-bit object-API agreement and scipy agreement at exploration level.",
-    note="Forward spans only. scipy agreement: end state vs DOP853 at 1e-12 within 1000 tolerance units, adaptive methods only.",
+    note="Backward spans without t_eval (the facade rejects t_eval there) with and without step bounds, on the time-reflected problem; distinct rtol/atol in a third of the cells. scipy agreement: end state vs DOP853 at 1e-12 within 1000 tolerance units, adaptive methods only.",
     technique="TLC small-scope model + lattice of real facade calls judged by FacadeJudge.tla", design="6/C18"),
 }
 
